@@ -534,3 +534,139 @@ def s07(tier, seed):
     run.cov["traces_validated_against_impl"] += n_ok
     run.sample({"recorded": {k: v for k, v in traces[0].items() if k != "units"}})
     run.finish(require_witnesses=["outcome_ok", "outcome_not_enough", "outcome_client_error", "outcome_type_error", "remote_puts_seen", "turnout_of_hidden_unit_visible"])
+
+
+# ---------------------------------------------------------------------------------------------------------------
+# S08: the command line tool
+
+
+def _job_cli(rows):
+    import pandas as pd
+    from click.testing import CliRunner
+
+    from harness import synth  # noqa: F401
+    import elexmodel.cli as cli_mod
+
+    log = []
+
+    class FakeHandler:
+        def __init__(self, election, office, gut, estimands, historical=False, unexpected_units=0, s3_client=None, **k):
+            log.append({"f": "handler", "args": {"estimands": list(estimands), "historical": bool(historical), "unexpected": int(unexpected_units)}})
+
+        def shuffle(self, *a, **k):
+            log.append({"f": "shuffle", "args": []})
+
+        def get_percent_fully_reported(self, p):
+            log.append({"f": "percent_reporting", "args": int(p)})
+            return "FEED"
+
+    def norm_kw(kw):
+        fe = kw.get("fixed_effects")
+        key = "-" if fe == {} else (list(fe)[0] if isinstance(fe, dict) and len(fe) == 1 and list(fe.values())[0] == ["all"] else f"?{fe!r}")
+        mp = kw.get("model_parameters")
+        return {
+            "aggregates": {"given": "aggregates" in kw, "v": list(kw.get("aggregates", []))},
+            "fixed_effects": {"kind": "dict" if isinstance(fe, dict) else type(fe).__name__, "key": key},
+            "save_output": list(kw.get("save_output", ["<missing>"])), "historical": bool(kw.get("historical")),
+            "national_summary": bool(kw.get("national_summary")), "unexpected_units": kw.get("unexpected_units"),
+            "percent_reporting": kw.get("percent_reporting"),
+            "model_parameters": "absent" if mp == {} else ("literal" if mp == {"lambda_": 1} else f"?{mp!r}"),
+            "lhs_called_contests": list(kw.get("lhs_called_contests") or []),
+        }
+
+    def pos(data, eid, office, estimands, pis, thr, gut):
+        assert data == "FEED"
+        return {"estimands": list(estimands), "pis": [repr(float(x)) for x in pis], "threshold": int(thr), "gut": gut}
+
+    class FakeClient:
+        def get_estimates(self, data, eid, office, estimands, pis, thr, gut, **kw):
+            log.append({"f": "get_estimates", "args": {"pos": pos(data, eid, office, estimands, pis, thr, gut), "kw": norm_kw(kw)}})
+            return {"state_data": pd.DataFrame({"postal_code": ["AA"]})}
+
+        def get_national_summary_votes_estimates(self, w, base, alphas):
+            log.append({"f": "get_national_summary_votes_estimates", "args": [repr(w), repr(base), repr(alphas[0]) if len(alphas) == 1 else repr(alphas)]})
+
+    class FakeHistorical(FakeClient):
+        def get_historical_evaluation(self, data, eid, office, estimands, pis, thr, gut, **kw):
+            log.append({"f": "get_historical_evaluation", "args": {"pos": pos(data, eid, office, estimands, pis, thr, gut), "kw": norm_kw(kw)}})
+            ev = {e: {"unit_data": {}, "state_data": {}, "county_data": {}} for e in estimands}
+            return {"h1": {"evaluation": ev, "estimates": {"state_data": pd.DataFrame({"postal_code": ["AA"]})}}}
+
+    saved = (cli_mod.MockLiveDataHandler, cli_mod.ModelClient, cli_mod.HistoricalModelClient)
+    cli_mod.MockLiveDataHandler, cli_mod.ModelClient, cli_mod.HistoricalModelClient = FakeHandler, FakeClient, FakeHistorical
+    bad = []
+    try:
+        for sc in rows:
+            o = sc["opt"]
+            args = [synth.EID, "--office_id", "G"]
+            for e in o["ests"]:
+                args += ["--estimands", e]
+            for a in o["aggs"]:
+                args += ["--aggregates", a]
+            if o["fe"] == "json":
+                args += ["--fixed_effects", '{"county_classification": ["all"]}']
+            elif o["fe"] == "name":
+                args += ["--fixed_effects", "postal_code"]
+            for s in o["save"]:
+                args += ["--save_output", s]
+            if o["pis"] == "one":
+                args += ["--prediction_intervals", "0.8"]
+            if o["unexpected"]:
+                args += ["--unexpected_units", str(o["unexpected"])]
+            if o["reporting"] != 100:
+                args += ["--percent_reporting", str(o["reporting"])]
+            if o["params"] == "literal":
+                args += ["--model_parameters", '{"lambda_": 1}']
+            for c in o["lhs"]:
+                args += ["--lhs_called_contests", c]
+            if o["historical"]:
+                args.append("--historical")
+            if o["national"]:
+                args.append("--national_summary")
+            del log[:]
+            res = CliRunner().invoke(cli_mod.cli, args)
+            outcome = "ok" if res.exception is None else type(res.exception).__name__
+            obs_calls = json.loads(json.dumps(log))
+            want = sc["calls"]
+            if outcome != sc["outcome"]:
+                bad.append({"clause": "outcome", "expected": sc["outcome"], "observed": outcome, "detail": str(res.exception)[:200], "opt": o})
+            elif obs_calls != want:
+                k = next((i for i, (a, b) in enumerate(zip(obs_calls, want)) if a != b), min(len(obs_calls), len(want)))
+                bad.append({"clause": "calls", "first_difference_at": k, "expected": want[k] if k < len(want) else None,
+                            "observed": obs_calls[k] if k < len(obs_calls) else None, "opt": o})
+    finally:
+        cli_mod.MockLiveDataHandler, cli_mod.ModelClient, cli_mod.HistoricalModelClient = saved
+    return bad
+
+
+def s08(tier, seed):
+    """CliDispatch.tla: every exported option combination run through the real click command with recording stand-ins for the handler and the clients."""
+    global json
+    import json
+
+    run = report.Run("S08", tier, seed)
+    run.assumptions += ["supplementary model, not a listed property: the command's control flow and argument shaping; the data handler and the two clients are "
+                        "replaced by recording stand-ins (their behaviour is the business of the other models)"]
+    res = tlc.run_tlc("MC_CliDispatch", "MC_CliDispatch.cfg", workers=1, timeout=600, keep_stdout=False)
+    run.add_tlc("MC_CliDispatch", res)
+    if res.violation:
+        run.violation(f"tlc:{res.violation}", {"model": "MC_CliDispatch"}, {"trace": res.error_trace[:60]})
+    common.mc(run, "MC_CliDispatch", "MC_CliDispatch_demo.cfg", expect_violation="HistoricalRunAlwaysReports", workers=1,
+              name="demo: a historical run without --aggregates ends in KeyError after the evaluation was computed")
+    scen = [v for t, v in res.printed if t == "SCEN"]
+    rnd = random.Random(seed)
+    if tier == "quick":
+        scen = rnd.sample(scen, 3000)
+    else:
+        run.cov["exhaustive"] = True
+    jobs = [scen[i : i + 200] for i in range(0, len(scen), 200)]
+    for bads, job in zip(common.pool().map(_job_cli, jobs, chunksize=1), jobs):
+        run.cov["scenarios_replayed_into_impl"] += len(job)
+        for b in bads:
+            run.violation(b["clause"], {"clause": b["clause"]}, b)
+    for s in scen:
+        run.witness("outcome_" + s["outcome"])
+        if s["opt"]["national"] and not s["opt"]["historical"]:
+            run.witness("national_summary_requested")
+    run.sample({"scenario": scen[0]})
+    run.finish(require_witnesses=["outcome_ok", "outcome_KeyError", "national_summary_requested"])
